@@ -269,10 +269,11 @@ def main(pid, tier):
                                 'wall_s': round(st['wall'], 1), 'real_wall_s': round(t_real, 1)}}
     return rep.finish('model_checking', cov, [
         'signature shapes: 0-3 positional-or-keyword parameters with a defaulted suffix, optional *args, keyword-only '
-        'parameters (none / required / defaulted / one of each), optional **kw (160 shapes); plain functions, bound methods, '
+        'parameters (none / required / defaulted / one of each), optional **kw (160 shapes x 3 positional-only modes); plain functions, bound methods, '
         'callable instances and functools.partial over each, fixing up to MAXPA positionals and up to 2 keywords (including an '
         'unknown name); calls with up to MAXNP positionals and up to MAXK keywords (including an unknown name)',
-        'positional-only parameters, nested partials, builtins and classes as callables are not in the catalogue',
+        'positional-only parameters (none / the first / all positional ones, shape ids 160-479) and functools.wraps wrappers are included; '
+        'nested partials, builtins and classes as callables are not in the catalogue',
         'exhaustive within these bounds only'])
 
 
